@@ -290,6 +290,19 @@ theorem stdinErr_only_if_fails (e : Env) (h : (run e).res = some .stdinErr) : e.
   · rw [hr.1] at h; cases h
   · rw [hr.1] at h; cases h
 
+theorem step_stdinClosed (e : Env) (s : St) (h : s.stdinClosed = true) : (step e s).stdinClosed = true := by
+  cases hpc : s.pc <;> simp only [step, hpc, waitStep] <;> (repeat' split) <;> simp [h]
+
+/-- **stdin first**: unless closing stdin itself failed, stdin has been closed when Close returns (and,
+the first atomic section being the only one that can fail so, before any timer or signal). -/
+theorem stdin_closed (e : Env) (h : (run e).res ≠ some .stdinErr) : (run e).stdinClosed = true := by
+  cases hs : e.stdinFails with
+  | true => exact absurd (second_close_inert e hs).1 h
+  | false =>
+    have h1 : (step e init).stdinClosed = true := by simp [step, init, hs]
+    unfold run
+    exact step_stdinClosed _ _ (step_stdinClosed _ _ (step_stdinClosed _ _ (step_stdinClosed _ _ (step_stdinClosed _ _ (step_stdinClosed _ _ h1)))))
+
 /-- A death by SIGKILL means SIGKILL was delivered. -/
 theorem death_kill (e : Env) (ta ka : Option Nat) (h : death e ta ka = some .sigKill) : ka.isSome := by
   unfold death at h
